@@ -462,9 +462,10 @@ std::string gen_trajectory(const Plan &p, double box, int) {
     if (p.fmt == 0) {
       o << "ITEM: TIMESTEP\n" << (f + 1) * 10 << "\nITEM: NUMBER OF ATOMS\n" << n << "\nITEM: BOX BOUNDS pp pp pp\n";
       for (int k = 0; k < 3; k++) { snprintf(line, sizeof line, "0 %.6f\n", L * 10.0); o << line; }
-      o << "ITEM: ATOMS id type x y z\n";
+      o << "ITEM: ATOMS id type x y z fx fy fz\n";
       for (int i = 0; i < n; i++) {
-        snprintf(line, sizeof line, "%d %d %.6f %.6f %.6f\n", i + 1, (i % p.chain) % 2, x[(size_t)i * 3] * 10, x[(size_t)i * 3 + 1] * 10, x[(size_t)i * 3 + 2] * 10);
+        snprintf(line, sizeof line, "%d %d %.6f %.6f %.6f %.4f %.4f %.4f\n", i + 1, (i % p.chain) % 2, x[(size_t)i * 3] * 10, x[(size_t)i * 3 + 1] * 10,
+                 x[(size_t)i * 3 + 2] * 10, 20.0 * (r.unit() - 0.5), 20.0 * (r.unit() - 0.5), 20.0 * (r.unit() - 0.5));
         o << line;
       }
     } else {
